@@ -28,6 +28,9 @@ func runC09(c *Ctx) {
 	c09RangePoint(c)
 	handoverRule(c, "C09.handover", "dnsdata")
 	c09V4Predicate(c, "C09")
+	// the normal form is written with Bquote and read back with Bunquote: a value that does not survive unquoting
+	// does not compile to the same bytes (seed c09e)
+	c.importRules(runC17, "C17", map[string]string{"unquote-multibyte": "unquote-multibyte", "escapes": "quote-escapes"})
 }
 
 // relPath: access path of an address relative to the receiver root name ("" if not rooted there).
